@@ -135,5 +135,30 @@ fn main() {
         }
         Err(e) => println!("tampered: verify = Err({e})"),
     }
+
+    println!("-- 4. '/' inside served hash strings (second suspect): no validation anywhere on the verification path");
+    // A HYPOTHETICAL chain whose signers committed a transaction hash containing '/': the served item
+    // with the '/' moved to the other field has the same leaf and is accepted. Real signers commit
+    // hex strings only (ScannedBlock hex-encodes), and TLC shows committed-hex vs served-anything is
+    // injective, so this is not reachable -- but nothing on the client side would stop it.
+    let odd = CardanoTransaction::new("aa/bb", BlockNumber(3), SlotNumber(70), "cc");
+    let node: CardanoBlockTransactionMkTreeNode = odd.clone().into();
+    let omap: Map = MKMap::new(&[(BlockRange::from_block_number(BlockNumber(3)), MKTree::<Store>::new_from_iter([node.clone()]).unwrap().into())]).unwrap();
+    let mut pm = ProtocolMessage::new();
+    pm.set_message_part(ProtocolMessagePartKey::CardanoBlocksTransactionsMerkleRoot, omap.compute_root().unwrap().to_hex());
+    pm.set_message_part(ProtocolMessagePartKey::LatestBlockNumber, "4".to_string());
+    pm.set_message_part(ProtocolMessagePartKey::CardanoBlocksTransactionsBlockNumberOffset, "15".to_string());
+    let ocert = cert_for(pm);
+    let served = CardanoTransaction::new("aa", BlockNumber(3), SlotNumber(70), "bb/cc");
+    let opart: MkSetProofMessagePart<CardanoTransactionMessagePart> =
+        MkSetProof::<CardanoTransaction>::new(vec![served], omap.compute_proof(&[node]).unwrap()).try_into().unwrap();
+    let omsg = CardanoTransactionsProofsV2::new("cert", Some(opart), vec![], BlockNumber(4), BlockNumberOffset(15));
+    match omsg.verify() {
+        Ok(v) => {
+            let message = MessageBuilder::new().compute_cardano_transactions_proofs_v2_message(&ocert, &v);
+            println!("committed (th=aa/bb, bh=cc), served (th=aa, bh=bb/cc): verify = Ok, match_message = {}", ocert.match_message(&message));
+        }
+        Err(e) => println!("verify = Err({e})"),
+    }
     let _ = MKTreeNode::new(vec![]);
 }
